@@ -6,7 +6,7 @@ rnd = os.environ.get("SEED_ROUND", "")
 src = f"/tmp/seedout{rnd}-{pid}/{v}"
 log = f"/tmp/confirm{rnd}-{pid}-{v}.log"
 # second-round changes are stored as variants C and D, third-round ones as E and F
-name = {"2": {"A": "C", "B": "D"}, "3": {"A": "E", "B": "F"}}[rnd][v] if rnd in ("2", "3") else v
+name = {"2": {"A": "C", "B": "D"}, "3": {"A": "E", "B": "F"}, "4": {"A": "G", "B": "H"}, "5": {"A": "I", "B": "J"}}[rnd][v] if rnd in ("2", "3", "4", "5") else v
 res = open(log).read().strip().splitlines()[-1]
 m = re.search(r"suite_rc=(\d+) passed=(\d+) failed=(\d+) demo_with_change_rc=(\d+) demo_without_change_rc=(\d+)", res)
 assert m, res
